@@ -223,6 +223,12 @@ def gen_history(rng, spec, roots, refs, opts):
                     # mostly through the chain that was just used (records are read again and again through the same task objects)
                     steps.append({'op': 'inspect', 'chain': c2 if rng.random() < 0.7 else rng.choice(list(live)), 'what': rng.choice(opts['inspect_kinds'])})
             steps.append({'op': 'snapshot', 'chain': c, 'light': True, 'ri': ri})
+            if opts.get('p_poison') and rng.random() < opts['p_poison'] and len(live) > 1:
+                # code using this chain's tasks modifies, in place, the parameter values they were given (also default values); the chain is not
+                # used again, chains built later in this process must not notice
+                pc = rng.choice(list(live))
+                steps.append({'op': 'poison_params', 'chain': pc})
+                del live[pc]
         spawn = rng.random() < opts.get('p_spawn', 0.15)
         sessions.append({'spawn': spawn, 'hashseed': rng.randrange(1, 10 ** 6) if spawn else None, 'steps': steps})
     return sessions
@@ -439,6 +445,9 @@ def evaluate_history(lab, spec, roots, refs, sessions, counters, want):
                         exp_has = model.persisting(ob) and model.loc(ob) in model.store
                         if hd != exp_has:
                             add('C04', 'has_data', f'{here}: has_data of {n} is {hd}, the history implies {exp_has}')
+                continue
+            if op == 'poison_params':
+                counters['chains_whose_parameter_values_were_modified_in_place'] += 1
                 continue
             if op == 'reset':
                 # reset_data(): the task object lets go of its in-memory data; stored results and the forced mark are not touched
